@@ -27,7 +27,7 @@ def run(rep, tier, seed, proof_broken=False):
             break
         prefix = [None, "pre", "pre/fix/deep", "pre/", "ünï/p"][h % 5] if h < 5 else rng.choice([None, "pre", "pre/fix/deep", "pre/", "ünï/p"])
         ps = [1, 2, 3, 7, 1000][(h // 2) % 5] if h < 10 else rng.choice([1, 2, 3, 7, 1000])
-        layout = rng.choice(s3prop.LAYOUTS)
+        layout = s3prop.LAYOUTS[2] if h % 4 == 2 else rng.choice(s3prop.LAYOUTS)      # every fourth history: direct layout with path-like ids
         spec = rng.choice(["1.0", "1.1"])
         big = (h % 4 == 1)
         d = s3prop.Dual(rng, prefix, ps, layout, spec)
@@ -36,7 +36,7 @@ def run(rep, tier, seed, proof_broken=False):
             rep.evaluations += 1
             if not d.init_ok:
                 fails.append(dict(what="init disagrees", detail=d.diffs[:1], prefix=prefix)); continue
-            g = s3prop.LineGen(rng, d, layout, big=big)
+            g = s3prop.LineGen(rng, d, layout, big=big, path_ids=(True if h % 4 == 2 else None))
             g.setup()
             lines = g.warmup()
             for i in range(len(lines) + budget["ops"]):
